@@ -70,12 +70,15 @@ def boundOk (k : BoundCheck) (x : F) : Bool :=
   | .finiteNonneg => F.le (.fin 0) x && F.lt x .posInf      -- `if not (0 <= x < math.inf): raise`
   | .unknown => true
 
-/-- `HttpRetryConfig.__post_init__`: `none` = accepted -/
-def validate (c : Cfg) : Option BadField :=
+/-- `HttpRetryConfig.__post_init__` with the given bound checks: `none` = accepted -/
+def validateWith (baseCk maxCk : BoundCheck) (c : Cfg) : Option BadField :=
   if c.maxRetries < 0 then some .maxRetries
-  else if !boundOk baseCheck c.backoffBase then some .backoffBase
-  else if !boundOk maxCheck c.backoffMax then some .backoffMax
+  else if !boundOk baseCk c.backoffBase then some .backoffBase
+  else if !boundOk maxCk c.backoffMax then some .backoffMax
   else none
+
+/-- `HttpRetryConfig.__post_init__` as extracted -/
+def validate (c : Cfg) : Option BadField := validateWith baseCheck maxCheck c
 
 /-- `_get_retry_after` / `_parse_retry_after` on a classified header -/
 def parseRA : RA → Option F
@@ -85,27 +88,40 @@ def parseRA : RA → Option F
   | .dateNaive => none
   | .garbage => none
 
-/-- `config.backoff_base * (2 ** k)`: the int is converted to float first (`OverflowError` from 2**1024 on) -/
-def expDelay (c : Cfg) (attempt : Nat) : Except ExcKind F :=
-  let k := match expClamp with
+/-- `config.backoff_base * (2 ** k)`: the int is converted to float first (`OverflowError` from 2**1024 on);
+    `clamp = some K` is `2 ** min(attempt, K)`, `none` is `2 ** attempt` -/
+def expDelayWith (clamp : Option Nat) (c : Cfg) (attempt : Nat) : Except ExcKind F :=
+  let k := match clamp with
     | some m => min attempt m
     | none => attempt
   if 1024 ≤ k then .error .overflow else .ok (F.mulPow2 c.backoffBase k)
 
-/-- `_compute_delay(attempt, config, retry_after)`; returns the delay and whether `random.uniform` was drawn -/
-def computeDelay (c : Cfg) (attempt : Nat) (ra : Option F) (r : Rat) : Except ExcKind (F × Bool) :=
-  match expDelay c attempt with
+/-- `_compute_delay(attempt, config, retry_after)` for a given exponent clamp and jitter guard;
+    returns the delay and whether `random.uniform` was drawn -/
+def computeDelayWith (clamp : Option Nat) (guard : Bool) (c : Cfg) (attempt : Nat) (ra : Option F) (r : Rat) :
+    Except ExcKind (F × Bool) :=
+  match expDelayWith clamp c attempt with
   | .error e => .error e
   | .ok e =>
-    let drew := !jitterGuard || F.lt e .posInf
+    -- `random.uniform(0, exp_delay) if exp_delay < math.inf else exp_delay`  (guard)  /  `random.uniform(0, exp_delay)`
+    let drew := !guard || F.lt e .posInf
     let jittered := if drew then F.uniform0 e r else e
+    -- `delay = min(jittered, config.backoff_max)`
     let delay := F.pyMin jittered c.backoffMax
+    -- `if config.respect_retry_after and retry_after is not None: delay = max(delay, min(retry_after, config.backoff_max))`
     let delay := if c.respectRA then
         match ra with
         | some x => F.pyMax delay (F.pyMin x c.backoffMax)
         | none => delay
       else delay
     .ok (delay, drew)
+
+/-- as extracted -/
+def expDelay (c : Cfg) (attempt : Nat) : Except ExcKind F := expDelayWith expClamp c attempt
+
+/-- `_compute_delay` as extracted -/
+def computeDelay (c : Cfg) (attempt : Nat) (ra : Option F) (r : Rat) : Except ExcKind (F × Bool) :=
+  computeDelayWith expClamp jitterGuard c attempt ra r
 
 structure Run where
   steps : List Step
@@ -119,30 +135,41 @@ def okFault : Fault := .status 200 .absent
 /-- `attempt >= config.max_retries` -/
 def lastAttempt (c : Cfg) (attempt : Nat) : Bool := decide (c.maxRetries ≤ (attempt : Int))
 
+/-- what one loop iteration decides after the transmission met `f`, before any delay is computed -/
+inductive Decision
+  | stop (o : Outcome)          -- `return resp` / `raise` / `break`
+  | retry (ra : Option F)       -- go on to `_compute_delay(attempt, config, ra)` and `_sleep`
+deriving DecidableEq, Repr
+
+/-- the except clauses and the status checks of one iteration of the loop, in source order -/
+def decide1 (c : Cfg) (attempt : Nat) (f : Fault) : Decision :=
+  let connFault (k : ExcKind) : Decision :=
+    -- `if not config.retry_on_connection_error or attempt >= config.max_retries: raise`
+    if !c.retryOnConn || lastAttempt c attempt then .stop (.raised k) else .retry none
+  match f with
+  | .otherProto => .stop (.raised .otherProto)      -- marker absent / not a caught class: propagates
+  | .disconnect => connFault .disconnect
+  | .connectErr => connFault .connectErr
+  | .timeout => connFault .timeout
+  | .status code ra =>
+    if !c.retryable.contains code then .stop (.resp code)                        -- `return resp`
+    else if lastAttempt c attempt then .stop (.transient code (parseRA ra))     -- `break` → `HttpTransientError`
+    else .retry (parseRA ra)
+
 /-- the `for attempt in range(config.max_retries + 1)` loop of `_request_with_retry`;
     `fuel` = iterations left in the range -/
 def go (c : Cfg) (jit : Nat → Rat) : Nat → Nat → Nat → List Fault → Run
   | 0, _, draws, _ => ⟨[], .transient 0 none, draws⟩      -- range exhausted without a response (defensive branch)
   | fuel + 1, attempt, draws, script =>
     let f := script.headD okFault
-    let retryAfter (ra : Option F) : Run :=
+    match decide1 c attempt f with
+    | .stop o => ⟨[⟨f, none⟩], o, draws⟩
+    | .retry ra =>
       match computeDelay c attempt ra (jit draws) with
       | .error e => ⟨[⟨f, none⟩], .raised e, draws⟩
       | .ok (d, drew) =>
         let r := go c jit fuel (attempt + 1) (if drew then draws + 1 else draws) script.tail
         ⟨⟨f, some d⟩ :: r.steps, r.outcome, r.draws⟩
-    let connFault (k : ExcKind) : Run :=
-      if !c.retryOnConn || lastAttempt c attempt then ⟨[⟨f, none⟩], .raised k, draws⟩
-      else retryAfter none
-    match f with
-    | .otherProto => ⟨[⟨f, none⟩], .raised .otherProto, draws⟩
-    | .disconnect => connFault .disconnect
-    | .connectErr => connFault .connectErr
-    | .timeout => connFault .timeout
-    | .status code ra =>
-      if !c.retryable.contains code then ⟨[⟨f, none⟩], .resp code, draws⟩
-      else if lastAttempt c attempt then ⟨[⟨f, none⟩], .transient code (parseRA ra), draws⟩
-      else retryAfter (parseRA ra)
 
 /-- `_request_with_retry(make_request, config=c)` against a fault script -/
 def run (c : Cfg) (jit : Nat → Rat) (draws : Nat) (script : List Fault) : Run :=
@@ -184,21 +211,28 @@ def guardHolds (g : Guard) (last : Option Nat) (extra : Bool) : Bool :=
   | .statusAnd n => last == some n && extra
   | .other => false
 
+/-- the status of a returned response -/
+def respCode : Outcome → Option Nat
+  | .resp code => some code
+  | _ => none
+
+/-- an exception inside `try: … except Exception: return` is swallowed -/
+def failEnding (p : PostSite) (e : Ending) : Ending := if p.swallowed then .swallowed else e
+
 /-- the POST skeleton of a client method, call site by call site -/
 def runPosts (cfg : Option Cfg) (jit : Nat → Rat) (extra extOk : Bool) :
     List PostSite → Option Nat → Nat → List Fault → ClientRun
   | [], last, draws, _ => ⟨[], .completed last, draws⟩
   | p :: ps, last, draws, script =>
     if guardHolds p.guard last extra then
-      if p.externalizeFirst && !extOk then
-        ⟨[], if p.swallowed then .swallowed else .externalizeFailed, draws⟩
+      if p.externalizeFirst && !extOk then ⟨[], failEnding p .externalizeFailed, draws⟩
       else
         let r := post1 cfg p.retried jit draws script
-        match r.outcome with
-        | .resp code =>
+        match respCode r.outcome with
+        | some code =>
           let rest := runPosts cfg jit extra extOk ps (some code) r.draws (script.drop r.steps.length)
           ⟨r.steps :: rest.rounds, rest.ending, rest.draws⟩
-        | o => ⟨[r.steps], if p.swallowed then .swallowed else .failed o, r.draws⟩
+        | none => ⟨[r.steps], failEnding p (.failed r.outcome), r.draws⟩
     else runPosts cfg jit extra extOk ps last draws script
 
 /-- the extracted call-site program of a client method -/
